@@ -115,13 +115,14 @@ func findTarShape(p *load.Program) *tarShape {
 
 func runC12(c *core.Ctx) {
 	runFixtures(c, "drop", "valid")
-	c.Explain("Structural clauses of C12 decided from source (thin: contents, modes, 'nothing else' and writer schedules are behaviour): (R12.1) every read of archive/tar.Header.Name in package tar is passed through the normaliser (path.Clean + leading-\"/\" trim) and the normalised name reaches only calls on the destination file system (interface methods, FS helpers), the announce key and path.Dir — package tar contains no primitive sink, so an escaping '../x' is refused by the destination's own validation (C04/A1); (R12.2) the error of every destination-FS call and every copy step in the unpack functions and their background closures propagates: returned, wrapped, or sent on the error channel whose receive ends the unpack with that error (accepted: errors.Is(ErrExist) on Mkdir of a directory entry, which continues with Chmod; io.EOF on the tar stream); (R12.3) on that ErrExist edge Chmod is called with the header's mode; (R12.4) the destination calls for an entry are made after the success edge of creating its parent path; (R12.5) every buffer taken from a pool is given back on every path that does not end the unpack with an error, closure continuations included, and no path (callees and spawned writers counted) gives the same buffer back twice — a buffer that is in the pool twice is handed to two later entries, whose bytes then mix; (R12.6) the normaliser applies path.Clean to the entry name itself: cleaning a string with '/' prepended silently drops leading '..' elements, so an entry that resolves outside the root would be unpacked inside it instead of failing the unpack; (R12.7) the Mkdir/Chmod of a directory entry runs in the read loop itself, not in a spawned writer: in the background it races with the next entry's preparation of the same directory as a parent (0700), and the header's mode can be lost depending on the schedule. NOT claimed: the resulting tree.")
+	c.Explain("Structural clauses of C12 decided from source (thin: contents, modes, 'nothing else' and writer schedules are behaviour): (R12.1) every read of archive/tar.Header.Name in package tar is passed through the normaliser (path.Clean + leading-\"/\" trim) and the normalised name reaches only calls on the destination file system (interface methods, FS helpers), the announce key and path.Dir — package tar contains no primitive sink, so an escaping '../x' is refused by the destination's own validation (C04/A1); (R12.2) the error of every destination-FS call and every copy step in the unpack functions and their background closures propagates: returned, wrapped, or sent on the error channel whose receive ends the unpack with that error (accepted: errors.Is(ErrExist) on Mkdir of a directory entry, which continues with Chmod; io.EOF on the tar stream); (R12.3) on that ErrExist edge Chmod is called with the header's mode; (R12.4) the destination calls for an entry are made after the success edge of creating its parent path; (R12.5) every buffer taken from a pool is given back on every path that does not end the unpack with an error, closure continuations included, and no path (callees and spawned writers counted) gives the same buffer back twice — a buffer that is in the pool twice is handed to two later entries, whose bytes then mix; (R12.6) the normaliser applies path.Clean to the entry name itself: cleaning a string with '/' prepended silently drops leading '..' elements, so an entry that resolves outside the root would be unpacked inside it instead of failing the unpack; (R12.7) the Mkdir/Chmod of a directory entry runs in the read loop itself, not in a spawned writer: in the background it races with the next entry's preparation of the same directory as a parent (0700), and the header's mode can be lost depending on the schedule; (R12.8) the blocking select that ends the unpack ('an error, or all writers done') polls the error channel again on the done branch before it reports success, because both cases can be ready at once. NOT claimed: the resulting tree.")
 	c.Assume("A1: the destination file system rejects names that would escape its root", "A2: archive/tar, path, io behave as documented")
 	c.RuleDoc("R12.1", "header names normalised and only delegated")
 	c.RuleDoc("R12.2", "a refused or failing entry fails the unpack")
 	c.RuleDoc("R12.3", "existing directory entries get their mode")
 	c.RuleDoc("R12.4", "parents first")
 	c.RuleDoc("R12.5", "pool buffers are returned, once")
+	c.RuleDoc("R12.8", "the final wait re-checks the error channel when the writers' completion wins the select")
 	c.RuleDoc("R12.7", "directory entries are created in the foreground")
 	c.RuleDoc("R12.6", "the normaliser cleans the entry name itself, never a rooted string")
 	for _, p := range c.Progs {
@@ -145,6 +146,7 @@ func runC12(c *core.Ctx) {
 	c.Floor("R12.5", 2)
 	c.Floor("R12.6", 1)
 	c.Floor("R12.7", 1)
+	c.Floor("R12.8", 1)
 }
 
 func r12Names(c *core.Ctx, p *load.Program, sh *tarShape) {
@@ -359,6 +361,60 @@ func r12Drop(c *core.Ctx, p *load.Program, sh *tarShape) {
 				}
 			}
 		}
+	})
+	// R12.8: a blocking select that waits for "an error OR all writers done" must look at the error channel once more
+	// on the done branch: a writer sends its error and then signals completion, so both cases can be ready and the
+	// runtime picks one at random — the error must not be lost when 'done' wins
+	ssax.Instrs(sh.readErr, func(ins ssa.Instruction) {
+		sel, ok := ins.(*ssa.Select)
+		if !ok || !sel.Blocking || len(sel.States) < 2 {
+			return
+		}
+		errState := -1
+		for i, st := range sel.States {
+			if st.Dir == types.RecvOnly {
+				if ch, ok := st.Chan.Type().Underlying().(*types.Chan); ok && ssax.IsErrorType(ch.Elem()) {
+					errState = i
+				}
+			}
+		}
+		if errState < 0 {
+			return
+		}
+		key := fname(sh.readErr) + "|final-wait-rechecks-errors"
+		// after this select, every path to a nil-error return that did not take the error case passes another
+		// (non-blocking) select that receives from an error channel
+		bad := ""
+		idx := 0
+		for i, in2 := range sel.Block().Instrs {
+			if in2 == ssa.Instruction(sel) {
+				idx = i
+			}
+		}
+		eidx := ssax.ErrorResultIndex(sh.readErr.Signature)
+		ssax.EnumPaths(sh.readErr, sel.Block(), idx+1, nil, ssax.PathHooks{
+			Instr: func(s *ssax.PathState, in2 ssa.Instruction) {
+				if s2, ok := in2.(*ssa.Select); ok && !s2.Blocking {
+					for _, st := range s2.States {
+						if ch, ok := st.Chan.Type().Underlying().(*types.Chan); ok && st.Dir == types.RecvOnly && ssax.IsErrorType(ch.Elem()) {
+							s.Counts["rechecked"] = 1
+						}
+					}
+				}
+			},
+			End: func(s *ssax.PathState, last ssa.Instruction) {
+				r, ok := last.(*ssa.Return)
+				if !ok || eidx < 0 {
+					return
+				}
+				ev := s.Resolve(r.Results[eidx])
+				if ssax.IsNilConst(ev) && s.Counts["rechecked"] == 0 && bad == "" {
+					bad = p.Pos(r.Pos())
+				}
+			},
+		})
+		c.Check(bad == "", "R12.8", key, p.Pos(sel.Pos()), "the 'all writers done' branch polls the error channel before reporting success",
+			fmt.Sprintf("%s returns nil at %s straight from a select between the error channel and the writers' completion: a writer queues its error and then signals completion, so both cases are ready and the select may pick completion — the unpack ends without UnarchiveErr although an entry was refused (seen in about 1 of 5000 unpacks)", fname(sh.readErr), bad))
 	})
 	c.Check(recvOK >= 2, "R12.2", fname(sh.readErr)+"|error-channel-drained", p.Pos(sh.readErr.Pos()), fmt.Sprintf("%d selects receive from the error channel (between entries and at the end)", recvOK),
 		"the read loop does not receive from the error channel both between entries and after the last one: a background writer's failure would not fail the unpack")
